@@ -124,7 +124,7 @@ SECTION = _Sec()
 def op_section(o):
     """the section of an edit as typed: with the spelled-out variant a blank follows the section name ('Pair :A - B = ...'), as a
     header '[Pair ]' may be written in the file"""
-    return SECTION[o["s"]] + (" " if o.get("ws") == 1 else "")
+    return (" " if o.get("ws") == 1 and o.get("k", 0) % 2 else "") + SECTION[o["s"]] + (" " if o.get("ws") == 1 else "")      # also a blank in front of it
 
 
 def cli_args(ops):
@@ -285,7 +285,7 @@ def _edit_one(job):
                 for it in s["items"][:1]:
                     # the item as the listing names it, and typed with blanks inside the key and after the section name (as the
                     # edit options accept it, and as a header '[Pair ]' / a key 'A - B' may be written in the file)
-                    for q in ("%s:%s" % (SECTION[s["s"]], key_text(s["s"], it["k"], 0)), "%s :%s" % (SECTION[s["s"]], key_text(s["s"], it["k"], 1))):
+                    for q in ("%s:%s" % (SECTION[s["s"]], key_text(s["s"], it["k"], 0)), "%s :%s" % (SECTION[s["s"]], key_text(s["s"], it["k"], 1)), " %s:%s" % (SECTION[s["s"]], key_text(s["s"], it["k"], 0))):
                         got = query_cli(base, cli_args(ops), d, ["--item-value", q])
                         out["n"] += 1
                         if got[0] != "ok" or got[1].strip() != resolved(val_text(s["s"], it["k"], it["v"])):
